@@ -622,7 +622,10 @@ class Session:
         self.sig("resp", p.method if p.method in METHODS else "?", exp, success)
         if exp == "ok" and not success:
             code = obj["error"].get("code") if isinstance(obj.get("error"), dict) else None
-            if self._refusal_plausible(p, code):
+            if p.may_refuse:
+                self.stats["tolerated_refusals"] += 1
+                eff = None
+            elif self._refusal_plausible(p, code):
                 self.stats["resource_refusals"] += 1
                 eff = None
             else:
@@ -999,6 +1002,7 @@ Conn.close_reported = False
 Pending.hold = False
 Pending.expiry_delivered = False
 Pending.race = False
+Pending.may_refuse = False
 Pending.ambiguous = False
 Fetch.request = None
 
